@@ -602,20 +602,10 @@ Section Cache.
 
   Definition t_running (t : tstate) : bool := match t with TRun _ _ _ _ _ => true | _ => false end.
 
-  (** Let thread [i] run alone until it stops (at most [fuel] accesses). *)
-  Fixpoint drain_thread (fuel : nat) (i : nat) (s : sys) : sys :=
-    match fuel with
-    | O => s
-    | S f =>
-        match nth_error (snd s) i with
-        | Some t => if t_running t then drain_thread f i (step_sys s i) else s
-        | None => s
-        end
-    end.
-
-  (** After the schedule, the threads finish one after the other. *)
-  Definition drain_all (fuel : nat) (s : sys) : sys :=
-    fold_left (fun s i => drain_thread fuel i s) (seq 0 (length (snd s))) s.
+  (** After the schedule proper, every thread in turn gets [n] more turns (a turn of a
+      thread that has finished changes nothing). *)
+  Definition drain_sched (threads n : nat) : list nat :=
+    concat (map (fun i => repeat i n) (seq 0 threads)).
 
   Definition t_results (t : tstate) : list (Z * P) :=
     match t with TRun _ _ _ _ r => r | TDone r => r end.
@@ -737,7 +727,7 @@ Definition run_threads (tbl : ttable) (tag_of : Z -> option Z) (fuel dfuel : nat
     (work : list (list msg)) (sched : list nat) : list (list (obs * view)) :=
   let lkp := pure_plan tbl fuel in
   let jobs := map (lookups_of lkp tag_of) work in
-  let s := drain_all plan (deps_of tbl) (mk_of tbl) dfuel
-             (run_sched plan (deps_of tbl) (mk_of tbl) sched (init_sys [] jobs)) in
+  let s := run_sched plan (deps_of tbl) (mk_of tbl) (sched ++ drain_sched (length work) dfuel)
+             (init_sys [] jobs) in
   map (fun '(ms, t) => map (marshal (lk_of_results (t_results t)) tag_of) ms)
       (combine work (snd s)).
